@@ -175,7 +175,7 @@ def gen_cases(ctx, eff):
                 continue
             for n in counts(d, ctx.tier):
                 for (pname, keys) in patterns(rng, d, n):
-                    if n > 600 and rng.random() < 0.5:
+                    if n > 600 and rng.random() < (0.5 if ctx.tier == "quick" else 0.8):
                         continue
                     cases.append(dict(kind=kind, d=d, dreq=dreq, keys=keys, q=queries(rng, kind, d, keys, ctx.tier), pat=pname, dtype=dt))
     # The 15-level limit (factor 2 stored as such and 2^15 annotations: alloc(16) fails, the next annotation overruns the
